@@ -164,17 +164,27 @@ def case_fixed_point(ctx, max_iter, aitken, with_nan=False):
 
 
 # ------------------------------------------------------------------------------------------------ stress balance
-def case_stress_function(ctx, wtype):
+def case_stress_function(ctx, wtype, witness=False):
     """_stress_iteration_function(log z0) == rho_air u*^2 - |resolved wave stress + tail stress + viscous stress|"""
     mods = P.install(ctx)
     ST = mods["stress"]
     g, f, deg = P.grid(ctx, 2, 3)
-    E = P.nonneg(ctx, "E", (2, 3))
-    R = ctx.reals("R", (2, 3))        # spectral wind input returned by the (arbitrary) source term
-    tail = ctx.reals("tail", 2)
-    lz = ctx.real("lz")
-    U = ctx.real("U")
-    ctx.assume(ctx.lt(0, U))
+    if witness:
+        # concrete inputs through the same harness (everything constant-folds): a wrong balance equation is refuted
+        # by arithmetic instead of by a non-linear search
+        mk = lambda rows: np.array([[ctx.frac(*q) for q in r] for r in rows], dtype=object if ctx.mode == "sym" else float)
+        E = mk([[(1, 2), (1, 4), (3, 4)], [(1, 8), (1, 2), (1, 16)]])
+        R = mk([[(1, 1000), (3, 1000), (1, 500)], [(1, 250), (1, 2000), (7, 1000)]])
+        tail = np.array([ctx.frac(1, 50), ctx.frac(-1, 100)], dtype=object if ctx.mode == "sym" else float)
+        lz = ctx.frac(-7, 1)
+        U = ctx.frac(3, 4)
+    else:
+        E = P.nonneg(ctx, "E", (2, 3))
+        R = ctx.reals("R", (2, 3))        # spectral wind input returned by the (arbitrary) source term
+        tail = ctx.reals("tail", 2)
+        lz = ctx.real("lz")
+        U = ctx.real("U")
+        ctx.assume(ctx.lt(0, U))
     wd = 40.0
     pars = _params("wind")
     pars["viscous_stress_parameter"] = 0.5
@@ -416,8 +426,9 @@ def cases(tier):
     add("case_fixed_point", "fixed_point_it3_noaitken", max_iter=3, aitken=False, opts=dict(weight=50))
     add("case_fixed_point", "fixed_point_it2_with_nan", max_iter=2, aitken=True, with_nan=True, opts=dict(weight=50))
     add("case_fixed_point", "fixed_point_it3_noaitken_with_nan", max_iter=3, aitken=False, with_nan=True, opts=dict(weight=60))
-    for wt in ("u10", "friction_velocity"):
+    for wt in ("u10", "friction_velocity", "ustar"):      # "ustar" is the documented alias of "friction_velocity"
         add("case_stress_function", f"stress_function_{wt}", wtype=wt, opts=dict(weight=30))
+        add("case_stress_function", f"stress_function_witness_{wt}", wtype=wt, witness=True, opts=dict(fold_sqrt=True, validate=0))
     add("case_roughness_point", "roughness_ok", scenario="ok")
     add("case_roughness_point", "roughness_raises", scenario="raises")
     for mi in ([2, 3] if q else [2, 3, 4]):
